@@ -1,0 +1,30 @@
+//go:build verif
+
+// Contracts for package main, property C03 (comment-only; read by /verif/vcgo, build tag verif).
+// (K2)/(K3) are stated on (*Epoch).GetBlock / (*Epoch).GetTransaction in contracts_verif_c08.go (one block per function).
+package main
+
+// ---- (K1) fetching by CID: the CID stored in the CAR section is compared with the wanted CID ----
+//
+// go-cid's parser (cid.CidFromReader) is third-party: vcgo models its result as an arbitrary CID value, so "the CID of the
+// section" can only be named where it is decoded, i.e. by the local `gotCid` of parseNodeFromSection. The obligation
+// below says: on success with a wanted CID, the decoded CID equals it, and the bytes returned are the rest of the section
+// after the length prefix (usize bytes) and the CID (cidLen bytes).
+
+//@ func parseNodeFromSection
+//@   mode int
+//@   ensures result1 == nil && wantedCid != nil ==> gotCid == *wantedCid
+//@   ensures result1 == nil ==> usize >= 1 && cidLen >= 1 && len(result0) == len(section) - usize - cidLen
+//@   ensures result1 == nil ==> forall i int :: 0 <= i && i < len(result0) ==> result0[i] == section[usize + cidLen + i]
+
+// The two section readers hand the wanted CID to parseNodeFromSection unchanged (one-line wrappers; a nil wantedCid - used by
+// the gsfa paths, which fetch by offset - switches the comparison off).
+//@ func readNodeWithKnownSize
+//@   mode int
+//@   requires br != nil
+//@   noframe
+
+//@ func readNodeFromReaderAtWithOffsetAndSize
+//@   mode int
+//@   requires reader != nil
+//@   noframe
